@@ -8,6 +8,7 @@ for d in sorted(glob.glob('/verif/seeded/*-*')):
     rows.append((os.path.basename(d), m.get('property', ''), m.get('what', '').replace('|', '/').replace('\n', ' ')[:170],
                  c.get('detected_by', ''), c.get('violation_key', '').replace('|', '\\|'), c.get('note', '')))
 missed = [r[0] for r in rows if 'MISSED' in r[5]]
+notcaught = [r[0] for r in rows if r[3] == 'not caught']
 sec = '''## 11. Seeded changes: which check catches which
 
 %d changes to `/repo` were written by fresh sub-agents that saw only the text of one
@@ -25,11 +26,13 @@ under `/verif/seeded/<name>/`; none of them was ever applied to `/repo` itself.
 %d of them were **missed at first** and led to stronger checks (generator or oracle
 changes, never a change of the property): %s - see the last column.
 
+**Not caught** (recorded, with the reason in the last column and in section 10): %s.
+
 | seed | change | caught by | violation key | what the check lacked at first |
 |---|---|---|---|---|
-''' % (len(rows), len(missed), ', '.join(missed))
+''' % (len(rows), len(missed), ', '.join(missed), ', '.join(notcaught) or 'none')
 for name, prop, what, by, key, note in rows:
-    lack = note[note.index('MISSED'):] if 'MISSED' in note else ''
+    lack = note[note.index('MISSED'):] if 'MISSED' in note else (note if by == 'not caught' else '')
     sec += '| %s | %s | %s | `%s` | %s |\n' % (name, what, by, key, lack)
 sec += '''
 Lessons folded back into the generators and oracles: sizes at which buffers are
